@@ -151,7 +151,7 @@ func c13Request(rng *rand.Rand) lreq {
 		// characters net/url does not accept unescaped in an encoded path
 		"/view/a|b/c^d", "/free/{x}/a%2Fb/`y`", "/view/%7Bid%7D/<z>"}
 	lr := lreq{Method: []string{"GET", "POST", "PUT", "DELETE", "PATCH"}[rng.IntN(5)], Path: paths[rng.IntN(len(paths))], Headers: map[string]string{}}
-	lr.Host = []string{"svc.test", "api.example.com:8443", "10.1.2.3"}[rng.IntN(3)]
+	lr.Host = []string{"svc.test", "api.example.com:8443", "10.1.2.3", "App.Example.COM", "SVC.test:80"}[rng.IntN(5)]
 	lr.Query = []string{"", "q=1", "q=1&multi=a&multi=b", "q=a%20b&x=%2F", "multi=z&q=1&q=2", "flag"}[rng.IntN(6)]
 	if rng.IntN(2) == 0 {
 		lr.Headers["X-Custom"] = []string{"cv", "with space", "a,b", "üni"}[rng.IntN(4)]
